@@ -63,15 +63,29 @@ func chainEventsFit(ev *events, announce []*mblock) bool {
 	return true
 }
 
-func matchRemoved(got []*types.Log, dropped []*mblock) string {
-	want := concatLogs(dropped)
-	if len(got) != len(want) {
-		return fmt.Sprintf("%d removed logs emitted, the %d dropped blocks have %d", len(got), len(dropped), len(want))
-	}
-	for i := range want {
-		if d := sameLog(got[i], want[i], true); d != "" {
-			return fmt.Sprintf("removed log %d differs from the dropped chain's log in %s", i, d)
+func matchRemoved(got []*types.Log, dropped []*mblock, noReceipts map[common.Hash]bool) string {
+	gi := 0
+	for _, b := range dropped {
+		match := gi+len(b.logs) <= len(got)
+		if match {
+			for j, l := range b.logs {
+				if sameLog(got[gi+j], l, true) != "" {
+					match = false
+					break
+				}
+			}
 		}
+		if match {
+			gi += len(b.logs)
+			continue
+		}
+		if noReceipts[b.hash()] && len(got) >= gi {
+			continue
+		}
+		return fmt.Sprintf("logs of dropped block %s (%d logs) not found at position %d of the %d removed logs (ascending order, Removed flag set)", b, len(b.logs), gi, len(got))
+	}
+	if gi != len(got) {
+		return fmt.Sprintf("%d removed logs emitted beyond the %d dropped blocks", len(got)-gi, len(dropped))
 	}
 	return ""
 }
@@ -171,9 +185,20 @@ func (s *sut) judge(pre *snapshotState, res *opResult, ev *events) bool {
 			firstErr string
 			fallback *candidate
 		)
-		silentOK := res.silentOK
-		if res.kind != "insert" {
-			silentOK = nil
+		silentOK := map[common.Hash]bool{}
+		if res.kind == "insert" {
+			for h := range res.silentOK {
+				silentOK[h] = true
+			}
+		}
+		// blocks without stored receipts (reported separately as I3:canonical-block-without-receipts)
+		// cannot have their logs announced or withdrawn by reorg()
+		noRc := map[common.Hash]bool{}
+		for h := range post.noReceipts {
+			silentOK[h], noRc[h] = true, true
+		}
+		for h := range pre.noReceipts {
+			silentOK[h], noRc[h] = true, true
 		}
 		inSeg := map[common.Hash]bool{}
 		for _, b := range res.seg {
@@ -183,7 +208,7 @@ func (s *sut) judge(pre *snapshotState, res *opResult, ev *events) bool {
 			if f < fork && res.kind != "insert" {
 				break
 			}
-			if d := matchRemoved(ev.removed, O[f+1:]); d != "" {
+			if d := matchRemoved(ev.removed, O[f+1:], noRc); d != "" {
 				if f == fork {
 					firstErr = "removed logs: " + d
 				}
